@@ -359,54 +359,7 @@ func c05(c *core.Ctx) {
 
 	// ---------------------------------------------------------------- R7
 	if c.Rule("R7", "completion unblocks the peer: the server-done CancelFunc is called before the final blocking frame writes; the HTTP request pipe reader is closed on every path of the completion defer", 2) {
-		// (a) functions that write frames and call a CancelFunc field of their receiver
-		n := 0
-		for _, fn := range fns {
-			if fn.Signature.Recv() == nil || fn.Parent() != nil {
-				continue
-			}
-			var cancelCalls []ssa.Instruction
-			core.Instrs(fn, func(in ssa.Instruction) {
-				if cc := core.CallOf(in); cc != nil {
-					if _, _, ok := core.FieldOf(cc.Value); ok && core.TypeStr(cc.Value.Type()) == "context.CancelFunc" {
-						cancelCalls = append(cancelCalls, in)
-					}
-				}
-			})
-			core.InstrsDeep(fn, func(f *ssa.Function, in ssa.Instruction) {
-				if f == fn {
-					return
-				}
-				if cc := core.CallOf(in); cc != nil {
-					if _, _, ok := core.FieldOf(cc.Value); ok && core.TypeStr(cc.Value.Type()) == "context.CancelFunc" {
-						cancelCalls = append(cancelCalls, nil) // called from a nested literal (e.g. the deferred tail): too late
-					}
-				}
-			})
-			sends := sendSites([]*ssa.Function{fn})
-			if len(cancelCalls) == 0 || len(sends) == 0 {
-				continue
-			}
-			n++
-			key := core.FuncName(fn) + ":done-signal-before-final-writes"
-			ok := true
-			for _, s := range sends {
-				if !core.MustPass(core.Entry(fn), s.instr, func(x ssa.Instruction) bool {
-					for _, cc := range cancelCalls {
-						if cc != nil && cc == x {
-							return true
-						}
-					}
-					return false
-				}) {
-					ok = false
-				}
-			}
-			c.Check(ok, key, fn.Pos(), "the completion CancelFunc is called before every blocking frame write of this function", "a final frame write can block before the completion signal is given: a client blocked in SendMsg (full request buffer) and a server blocked writing its final frames deadlock")
-		}
-		if n == 0 {
-			c.Fail("inprocgrpc:finish", token.NoPos, "ANCHOR-MISSING: no function found that both signals completion through a CancelFunc field and writes final frames")
-		}
+		c05DoneBeforeFinalWrites(c, fns)
 		// (b) the closer of the HTTP message channel closes the request pipe reader on all paths
 		m := 0
 		for _, cl := range closers {
@@ -1441,4 +1394,62 @@ func rootOf(fn *ssa.Function) *ssa.Function {
 		fn = fn.Parent()
 	}
 	return fn
+}
+
+// c05DoneBeforeFinalWrites: functions that write frames and signal completion
+// through a CancelFunc field of their receiver signal first (C05/R7a; also the
+// release clause of C20: a sender blocked by backpressure is released when the
+// peer finishes).
+func c05DoneBeforeFinalWrites(c *core.Ctx, fns []*ssa.Function) {
+	n := 0
+	for _, fn := range fns {
+		if fn.Signature.Recv() == nil || fn.Parent() != nil {
+			continue
+		}
+		var cancelCalls []ssa.Instruction
+		core.Instrs(fn, func(in ssa.Instruction) {
+			if cc := core.CallOf(in); cc != nil {
+				if _, _, ok := core.FieldOf(cc.Value); ok && core.TypeStr(cc.Value.Type()) == "context.CancelFunc" {
+					if _, isCall := in.(*ssa.Call); isCall {
+						cancelCalls = append(cancelCalls, in)
+					} else {
+						cancelCalls = append(cancelCalls, nil) // deferred (or go): runs after the writes below it — too late
+					}
+				}
+			}
+		})
+		core.InstrsDeep(fn, func(f *ssa.Function, in ssa.Instruction) {
+			if f == fn {
+				return
+			}
+			if cc := core.CallOf(in); cc != nil {
+				if _, _, ok := core.FieldOf(cc.Value); ok && core.TypeStr(cc.Value.Type()) == "context.CancelFunc" {
+					cancelCalls = append(cancelCalls, nil) // called from a nested literal (e.g. the deferred tail): too late
+				}
+			}
+		})
+		sends := sendSites([]*ssa.Function{fn})
+		if len(cancelCalls) == 0 || len(sends) == 0 {
+			continue
+		}
+		n++
+		key := core.FuncName(fn) + ":done-signal-before-final-writes"
+		ok := true
+		for _, s := range sends {
+			if !core.MustPass(core.Entry(fn), s.instr, func(x ssa.Instruction) bool {
+				for _, cc := range cancelCalls {
+					if cc != nil && cc == x {
+						return true
+					}
+				}
+				return false
+			}) {
+				ok = false
+			}
+		}
+		c.Check(ok, key, fn.Pos(), "the completion CancelFunc is called before every blocking frame write of this function", "a final frame write can block before the completion signal is given: a client blocked in SendMsg (full request buffer) and a server blocked writing its final frames deadlock")
+	}
+	if n == 0 {
+		c.Fail("inprocgrpc:finish", token.NoPos, "ANCHOR-MISSING: no function found that both signals completion through a CancelFunc field and writes final frames")
+	}
 }
